@@ -111,6 +111,11 @@ def build(rnd, tier, flags):
         done = set()
         ind_ = r.pick(["", "", " ", "   "])
         main_lines = render(0, n, 0)
+        if r.chance(20) and len(main_lines) >= 2:
+            # an include file that contributes no statement at all
+            main_lines.insert(r.n(1, len(main_lines)), _inc_line(r, "empty_c.inc"))
+            files["empty_c.inc"] = r.pick(["", "! only a comment\n", "\n\n", "   \n! c\n"])
+            meta["empty_include"] = True
         cross = any(min(depth[a:b]) < depth[a] or depth[b - 1] != depth[a] or
                     any(roles_[i] in ("open", "close", "mid") for i in (a, b - 1)) for a, b in ranges)
         order = [0, 1, 2]
